@@ -6,4 +6,9 @@ CHECKS = {
         "note": "Trusted: Lean kernel; hand-written model lean/Wf/Model/Serde.lean validated against winter-utils by the correspondence stream c26 (all vint64 boundaries 2^k±2, all first bytes, nested types); 64-bit usize; allocation-abort threshold is a modelling constant; truncation of composite encodings is correspondence-only.",
         "technique": "Lean 4 proof (induction/omega over the codec model) + differential correspondence with winter-utils",
     },
+    "C27": {
+        "text": "Refinement theorem for ALL contents, ALL chunk schedules (any positive read sizes) and ALL operation sequences: the ReadAdapter state machine returns exactly the SliceReader's values and end-of-input errors on the concatenated content (simulation via abs = local buffer ++ BufReader buffer ++ future reads), never panics, and check_eor fails only if the data is really missing. Proved by induction over the op list with invariants (chunks non-empty, guaranteed_eof only after exhaustion). Model tied to the code by correspondence on random histories plus exhaustive small-scope enumeration, with the real SliceReader as the property's oracle.",
+        "note": "Trusted: Lean kernel; hand-written model lean/Wf/Model/Adapter.lean; BufReader contract (fill_buf/consume) modelled, not verified; sticky EOF and no I/O errors assumed. Three genuine defects found by attempting this proof were repaired in /repo (see known_findings.txt: fixed entries).",
+        "technique": "Lean 4 refinement proof (simulation + induction over operation histories) + differential correspondence with winter-utils",
+    },
 }
